@@ -417,6 +417,8 @@ def run(ck: Check, prog: Program) -> None:
               nontrivial=n_sz > 0)
         for line, construct, msg in sz:
             ck.finding('SIZED-JSON', r_.dispatch.qualname, construct, r_.dispatch.module.rel, line, msg)
+    from . import borrow
+    borrow(ck, prog, 'C06', {'CONTAINER-GUARD'}, 'a JSON scalar handed to a deserialiser must be refused by its container test, not reach len() / iteration')
     # the response text is produced with the server encoder: what the dispatcher itself puts into an error (the validation error of
     # a call that does not bind) must be encodable by it, or json.dumps raises out of dispatch
     from .totality import encoder_default
